@@ -119,7 +119,14 @@ class WalletProp(BaseProp):
             rec = Recorder()
             with rec.installed():
                 full = build_wallet(case["w"])
-                exp = full.master.derive_path(list(case["export"]))
+                if case.get("export_node"):
+                    # the exported node sits at a depth no practical path reaches (depth byte 128..255): built directly
+                    from btc_hd_wallet.bip32 import PrvKeyNode
+                    en = case["export_node"]
+                    exp = PrvKeyNode(key=bytes.fromhex(en["key"]), chain_code=bytes.fromhex(en["chain"]), depth=en["depth"], index=en["index"],
+                                     parent_fingerprint=bytes.fromhex(en["pfpr"]), testnet=full.testnet)
+                else:
+                    exp = full.master.derive_path(list(case["export"]))
                 xpub = exp.extended_public_key(version=case["v"])
                 try:
                     fv = node_view(full, exp.derive_path(list(case["sub"])))
